@@ -137,15 +137,33 @@ def run(ctx):
     files.append([hout, points])
     results = vlib.tlc_parallel(jobs, maxpar=2)
 
-    hist_recs = [r for r in vlib.read_ndjson(hout) if r.get("e") == "Hist"]
+    seeded_recs = list(vlib.read_ndjson(hout))
+    hist_recs = [r for r in seeded_recs if r.get("e") == "Hist"]
+    eloss_recs = [r for r in seeded_recs if r.get("e") == "ELoss"]
 
     def hist_label(line):
-        if 1 <= line <= len(hist_recs):
-            r = hist_recs[line - 1]
+        if 1 <= line <= len(seeded_recs) and seeded_recs[line - 1].get("e") in ("Hist", "ELoss"):
+            r = seeded_recs[line - 1]
             p = pdoc["points"][r["id"] - 1]
-            return "  %s p=%s n=%d seed=%d draws[min,max,cap]=[%d,%d,%d] nonfinite=%d huge=%d" % (
-                r["label"], p["p"], r["n"], pdoc["seed"], r["dmin"], r["dmax"], r["dcap"], r["nonfin"], r["huge"])
+            extra = (" model=%s mean-dev=%d se=%d (2^-20 of the mean)" % (r["model"], r["devq"], r["sigq"])
+                     if r["e"] == "ELoss" else " huge=%d" % r["huge"])
+            return "  %s p=%s n=%d seed=%d draws[min,max,cap]=[%d,%d,%d] nonfinite=%d%s" % (
+                r["label"], p["p"], r["n"], pdoc["seed"], r["dmin"], r["dmax"], r["dcap"], r["nonfin"], extra)
         return ""
+
+    # EnergyLossHelper sweep: every selection branch and Urban sub-branch must have been reached (non-vacuity)
+    el_branches = set()
+    for r in eloss_recs:
+        u = r["urb"]
+        b = r["model"]
+        if b == "none":
+            b += "-early" if r["early"] else "-emax"
+        elif b == "urban":
+            b += ("-exc" if (u["emax"] > u["I"] and u["w"] > u["w0"]) else "-noexc") + ("-fast" if u["nion"] > u["eight"] else "-slow")
+        el_branches.add(b)
+    need = {"none-early", "none-emax", "urban-exc-fast", "urban-exc-slow", "urban-noexc-fast", "urban-noexc-slow", "gaussian", "gamma"}
+    if not need <= el_branches:
+        raise vlib.Broken("EnergyLossHelper sweep no longer reaches %s" % sorted(need - el_branches))
 
     stats = {"scripts": 0, "evals": 0, "hists": 0, "histograms": 0, "samples": 0, "kdraws": 0}
     devs = {}
@@ -178,6 +196,10 @@ def run(ctx):
                 if sc["k"] != "normal" or len(sc["ops"]) >= 4:
                     seen_kind.add(sc["k"])
                     samples.append(rec)
+    for r in eloss_recs:
+        for c in ("model", "support", "draws", "mean"):
+            distinct.add(("seeded", r["dist"], r["label"], c))
+        per["seeded:elhelper/" + r["model"]] = per.get("seeded:elhelper/" + r["model"], 0) + r["n"]
     for r in hist_recs:
         distinct.add(("seeded", r["dist"], r["label"], "support"))
         distinct.add(("seeded", r["dist"], r["label"], "draws"))
@@ -221,6 +243,7 @@ def run(ctx):
         "chi-square approximation of the multinomial at p = 1e-9 with expected counts >= 50 per bin",
         "scripted uniforms reach the samplers through detail::GenerateCanonical32 (the path used by XorwowRngEngine)",
         "doubles reach TLC as order-preserving ranks within one record; host double build only",
-        "EnergyLossUrbanDistribution has no closed-form law: support and draw bound only",
+        "EnergyLossUrbanDistribution has no closed-form law: support, draw bound and the defining property E[loss] = requested mean "
+        "(EnergyLossHelper sweep over every model-selection branch and Urban excitation on/off x slow/fast ionisation; bracket 6 standard errors + 1e-3 of the mean)",
         "NormalDistribution's copy constructor does not compile (mean_{other.mean}); copy construction is checked in the design model only",
     ]
